@@ -5,6 +5,7 @@ import (
 	"os"
 	"os/signal"
 	"path/filepath"
+	"sort"
 	"strings"
 	"syscall"
 	"testing"
@@ -86,13 +87,38 @@ func drawCfg(t *core.Tape, opt core.Options) RunCfg {
 		c.Partition = t.Chance(1, 3)
 	}
 	c.SyncSuffix = true
+	// Byzantine validators: any subset with strictly less than 1/3 of the power
+	if opt.Int("byz", 1) > 0 && c.NVal >= 4 && t.Chance(2, 3) {
+		var tot, have int64
+		for _, x := range c.Stakes {
+			tot += x
+		}
+		order := t.Perm(c.NVal)
+		for _, i := range order {
+			if (have+c.Stakes[i])*3 < tot && t.Chance(2, 3) {
+				have += c.Stakes[i]
+				c.ByzIdx = append(c.ByzIdx, i)
+				c.ByzStrat = append(c.ByzStrat, byzStrategies[t.Draw(len(byzStrategies))])
+			}
+		}
+		sort.Sort(byIdx{c.ByzIdx, c.ByzStrat})
+		c.NByz = len(c.ByzIdx)
+	}
+	if opt.Int("noise", 1) > 0 {
+		c.Forger = t.Chance(1, 3)
+		c.Relabel = t.Chance(1, 4)
+		c.Garbage = t.Chance(1, 4)
+		c.NoisePct = []int{2, 5, 15}[t.Draw(3)]
+	}
+	c.Filters = opt.Int("faults", 1) > 0 && t.Chance(1, 2)
 	return c
 }
 
 func (engine) Run(t *testing.T, tape *core.Tape, opt core.Options) (res *core.RunResult) {
 	res = core.NewResult()
 	s := &Sim{t: t, tape: tape, res: res, opt: opt, h: core.NewHasher(), ah: core.NewHasher(),
-		until: map[string]time.Duration{}, retries: map[string]int{}, cut: map[[2]int]bool{}}
+		until: map[string]time.Duration{}, retries: map[string]int{}, cut: map[[2]int]bool{},
+		blocks: map[string]*knownBlock{}, blocksByH: map[uint64][]*knownBlock{}, forged: map[string]string{}, bogusParts: map[int]int{}}
 	s.cfg = drawCfg(tape, opt)
 	s.maxSteps = opt.Int("maxsteps", 60000)
 	s.wallStart = wallNow()
@@ -133,6 +159,18 @@ func (engine) Run(t *testing.T, tape *core.Tape, opt core.Options) (res *core.Ru
 	return res
 }
 
+type byIdx struct {
+	idx []int
+	st  []string
+}
+
+func (b byIdx) Len() int           { return len(b.idx) }
+func (b byIdx) Less(i, j int) bool { return b.idx[i] < b.idx[j] }
+func (b byIdx) Swap(i, j int) {
+	b.idx[i], b.idx[j] = b.idx[j], b.idx[i]
+	b.st[i], b.st[j] = b.st[j], b.st[i]
+}
+
 func head(a []string, n int) []string {
 	if len(a) > n {
 		return a[:n]
@@ -170,6 +208,7 @@ func (s *Sim) run() {
 	for _, b := range c.ByzIdx {
 		s.isByz[b] = true
 	}
+	s.setupByz()
 	s.ah.Add("cfg", fmt.Sprint(c.NVal, c.NByz, c.DropPct > 0, c.DupPct > 0, c.DelayPct > 0, c.LongPct > 0, c.CorruptPct > 0, c.Partition, c.WAL))
 	for id := 0; id < total; id++ {
 		if s.isByz[id] {
